@@ -5,6 +5,8 @@ mod q1;
 mod sym;
 mod pr;
 mod ev;
+mod geo;
+mod tri;
 
 use util::*;
 
@@ -39,6 +41,7 @@ fn main() {
         "parse" => pr::run_parse(&o),
         "eval" => ev::run_eval(&o),
         "lists" => ev::run_lists(&o),
+        "tri" => tri::run(&o),
         _ => { eprintln!("unknown stream {}", stream); std::process::exit(2); }
     };
     let js = rep.to_json();
